@@ -79,14 +79,18 @@ def ob_swap(ctx):
 
     mods = [module(i, bodies[i], "m%d" % i) for i in range(m)]
     vec = Vec(st.record.CircularRecord(st.Seq("ACGT"), id="vec"), st.Seq(up), st.Seq(down), vfragment)
-    o1 = run_assemble(st, vec, mods)
+    def args(ms):
+        # a part listed twice in the call is still one part (the very same object)
+        return ([ms[0]] + ms) if P.get("twice") else ms
+
+    o1 = run_assemble(st, vec, args(mods))
     ctx.observe("kind", o1["kind"])
     ctx.witness(o1["kind"])
     if o1["kind"] != "product":
         return True
     mods2 = list(mods)
     mods2[j] = module(j, newbody, "repl", annotated=bool(P.get("annotated")))
-    o2 = run_assemble(st, vec, mods2)
+    o2 = run_assemble(st, vec, args(mods2))
     ctx.require(o2["kind"] == "product", "replacement-fails:" + o2["kind"])
     ref = reference_walk(codes(up, k), codes(down, k), [codes(s, k) for s in starts], [codes(e, k) for e in ends], k)
     chain = ref[1] if ref[0] == "product" else []
@@ -200,6 +204,9 @@ def obligations(tier, seed):
     for m in (1, 2):
         obs.append(Ob("swap among m=%d stubs, the replacement carries 12 references and a citing feature" % m, ob_swap,
                       dict(m=m, newlen=3, annotated=12), samples=10, cost=12 * 10 ** m, expect_witness=("product",), group="annotated"))
+    for m in (2, 3):
+        obs.append(Ob("swap among m=%d stubs, the first module listed twice in both calls" % m, ob_swap,
+                      dict(m=m, newlen=3, twice=True), samples=10, cost=2 * 10 ** m, expect_witness=("product",), group="twice"))
     for m in (2, 3):
         obs.append(Ob("swap among m=%d stubs whose fragments carry per-letter values (replacement: none, list or tuple)" % m, ob_swap,
                       dict(m=m, newlen=3, tracks=True), samples=10, cost=3 * 10 ** m, expect_witness=("product",), group="tracks"))
